@@ -259,11 +259,7 @@ MUTANTS = [
      "new": "            log.warning(\"%r: Still failing fetching offset from kafka: %r\", self, failure)\n        self._retry_fetch(self.retry_delay)",
      "expect": "C14.R1", "note": "seeded C14-3"},
     {"id": "no-reset-on-fetch-success", "file": "consumer.py",
-     "old": "        # Successful fetch, reset our retry delay\n        self.retry_delay = self.retry_init_delay\n", "new": "",
-     "expect": "C14.R2"},
-    {"id": "reset-after-park", "file": "consumer.py",
-     "old": "        # Successful fetch, reset our retry delay\n        self.retry_delay = self.retry_init_delay\n        self._fetch_attempt_count = 1\n\n        # Check to see if we are still processing the last block we fetched...\n        if self._msg_block_d:\n            # We are still working through the last block of messages...\n            # We have to wait until it's done, then process this response\n            self._msg_block_d.addCallback(lambda _: self._handle_fetch_response(responses))\n            return\n",
-     "new": "        # Check to see if we are still processing the last block we fetched...\n        if self._msg_block_d:\n            # We are still working through the last block of messages...\n            # We have to wait until it's done, then process this response\n            self._msg_block_d.addCallback(lambda _: self._handle_fetch_response(responses))\n            return\n        self.retry_delay = self.retry_init_delay\n        self._fetch_attempt_count = 1\n",
+     "old": "        self.retry_delay = self.retry_init_delay\n        self._fetch_attempt_count = 1\n\n        # start another fetch", "new": "        self._fetch_attempt_count = 1\n\n        # start another fetch",
      "expect": "C14.R2"},
     {"id": "limit-strict", "file": "consumer.py",
      "old": "        if self.request_retry_max_attempts != 0 and self._fetch_attempt_count >= self.request_retry_max_attempts:\n            log.debug(\n                \"%r: Exhausted attempts: %d fetching messages",
